@@ -851,6 +851,13 @@ fn do_internal_timer<M: AsRef<[Machine]>>(
     }
 
     assert!(machine.is_some(), "BUG: no internal action found");
+    #[cfg(feature = "verif")]
+    verif::rec(|| verif::Rec::Fired {
+        client: is_client,
+        machine: machine.unwrap().into_raw(),
+        time: target,
+        what: "timer",
+    });
 
     // create SimEvent with TimerEnd
     Some(SimEvent {
@@ -904,6 +911,18 @@ fn do_scheduled_action<M: AsRef<[Machine]>>(
     // no action found
     assert!(a.is_some(), "BUG: no action found");
     let a = a.unwrap();
+    #[cfg(feature = "verif")]
+    verif::rec(|| verif::Rec::Fired {
+        client: is_client,
+        machine: match &a.action {
+            TriggerAction::Cancel { machine, .. }
+            | TriggerAction::SendPadding { machine, .. }
+            | TriggerAction::BlockOutgoing { machine, .. }
+            | TriggerAction::UpdateTimer { machine, .. } => machine.into_raw(),
+        },
+        time: a.time,
+        what: "action",
+    });
 
     // do the action
     match a.action {
